@@ -47,7 +47,7 @@ ASSUMPTIONS["C11"] = [
     "capping works at the resolution tol.merge: exact volume / watertightness of capped halves is demanded only when distinct expected section points are > 1e-6 apart and every crossing point is reproducible to 1e-9 (8 eps scale / sin(edge, plane)); a vertex taken as on-plane within tolerance widens the area / volume tolerance by the band it may move (and points within tol.merge of the surface count as on it)",
     "near-plane offsets avoid the half-grid value 5e-9 where the 1e-8 rounding grid of grouping.unique_rows may 'go either way' (documented there)",
     "transform_points' documented identity shortcut (|M - I| < 1e-8) is allowed for in the 2D round trip of section_multiplane",
-    "template solids under jitter <= 0.05 / lattice >= 100 rounding are embedded (not self-intersecting); lattice 10 solids are used for capping only when convex by an exact test",
+    "solids used for capping are embedded: convex by an exact test, polyominoes by construction, every other pool / shell mesh passes an exhaustive own edge-through-face test (lattice 10 non-convex meshes are not used)",
     "slice_plane(face_index=...) is read as 'the positive part of the selected faces', like local_faces of mesh_plane",
     "per capped half (single plane): zero total vector area, area = clipped surface + exact section area (flux of the clipped surface through the plane), every cap triangle's centroid has winding number 1 w.r.t. the source solid; for the constructed polyomino solids and engines triangle / manifold every edge must be used equally often in both directions (allows two parts of a half touching along an edge); earcut is exempt from that clause because it merges collinear boundary points (T-junctions, zero geometric gap)",
     "winding consistency (is_volume) of a capped convex half is demanded only if the half has no zero-area face (a cap over collinear points)",
@@ -114,7 +114,10 @@ def build_mesh(ms):
     else:
         trusted = (ms["spec"].get("lattice") or 100) >= 100  # displacement <= 0.005 keeps templates embedded
         kinds = ms["spec"]["parts"][0]["kind"] if len(ms["spec"]["parts"]) == 1 else "multibody"
-    solid = bool(closed and nondeg and ref.volume_of(V, F) > 0 and (convex or trusted))
+    # an embedded solid: convex by the exact test, embedded by construction (polyominoes), or free of edge / face
+    # piercings by the exhaustive own test (a jittered thin torus of 3 x 3 rings can intersect itself)
+    embedded = convex or cells_info is not None or (trusted and closed and nondeg and not ref.self_pierced(V, F, E))
+    solid = bool(closed and nondeg and ref.volume_of(V, F) > 0 and embedded)
     return {"V": V, "F": F, "E": E, "lattice": lattice, "closed": closed, "solid": solid, "convex": convex, "ncomp": ncomp,
             "cells": cells_info, "label": ("lat:" if lattice else "flt:") + kinds + ("" if closed else ":open")}
 
